@@ -651,6 +651,7 @@ class Framer(tasking.Tasker):
         console.terse("Hierarchy: \n")
         upper = tops
         lower = []
+        shown = set(tops)  # an under named by the under verb of a frame it is not in may lead back up
         count = 0
         while upper:
             lframes = []
@@ -665,7 +666,9 @@ class Framer(tasking.Tasker):
             lower = []
             for u in upper: # get next level
                 for b in u.unders:
-                    lower.append(b)
+                    if b not in shown:
+                        shown.add(b)
+                        lower.append(b)
             upper = lower
             count += 1
             console.terse("Level {0}: {1}\n".format(count, " ".join(lframes)))
